@@ -49,24 +49,24 @@ Theorem C14_data_block : forall (dstate : Type) (spi : dstate -> spi_call -> dst
 Proof. exact write_data_cases. Qed.
 
 (* ---- C14_legal: the whole conversation is legal.  For every card kind, CRC mode, legal timing oracle,
-   initial memory and every sequence of in-range public calls - including mark_card_uninit followed by
-   re-initialisation at any point - the recorded bus trace (every SPI call with its MOSI and MISO
-   bytes, oldest first) is accepted by the host-side rule checker `accept` of SdSpec.v (rules 1-14:
-   FF fill, frame format, no command while busy, ACMD prefix, identification order, data commands only
-   when ready, data-block format and CRC, multi-block termination).
-   `legal_call`: the transfer lies inside the card (512-byte blocks), or it starts at or beyond the
-   card's capacity - then the card rejects the command, the driver reports ReadError / WriteError
-   and the conversation stays legal (calls after errors).  Not covered by the theorem: a multi-block
-   transfer that starts inside the card and runs off its end (the tie covers it: the checker is run
-   on every recorded implementation trace, including out-of-range and faulted runs). *)
+   initial memory and EVERY sequence of public calls the Rust API can express (`api_ok`: a u32 block
+   number, 512-byte blocks; any block count including 0) - reads, writes, capacity queries,
+   mark_card_uninit followed by re-initialisation at any point, and calls after errors: a transfer
+   that starts at or beyond the card's capacity (the card rejects the command -> ReadError /
+   WriteError) or runs off its end (the card goes silent / answers "write error" -> TimeoutReadBuffer
+   / WriteError, the driver ends the transfer with CMD12) - the recorded bus trace (every SPI call with
+   its MOSI and MISO bytes, oldest first) is accepted by the host-side rule checker `accept` of
+   SdSpec.v (rules 1-14: FF fill, frame format, no command while busy, ACMD prefix, identification
+   order, data commands only after completed identification, data-block format and CRC, multi-block
+   termination), every call returns what `spec_outcome` says and the card memory is `spec_mem`. *)
 Theorem C14_legal : forall (o : opts) (kd : kind) (csd : list N) (tim : timing),
   legal_timing tim -> addressable kd csd -> is_csd csd -> CSD_STRUCTURE csd = 0 \/ CSD_STRUCTURE csd = 1 ->
-  forall (mem0 : N -> list N) (cs : list api_call), mem_ok mem0 -> Forall (legal_call csd) cs ->
+  forall (mem0 : N -> list N) (cs : list api_call), mem_ok mem0 -> Forall api_ok cs ->
   exists s', run_calls card card_spi o cs [] (init_st card (power_on kd csd tim mem0)) =
                (rev (spec_values kd csd mem0 cs), s') /\
              c_mem (dev s') = spec_mem kd csd mem0 cs /\
              accept (rev (tr s')) = true.
-Proof. exact legal_histories. Qed.
+Proof. exact all_histories. Qed.
 
 (* the checker is not vacuous: a data token without a write command, a command sent while the
    card signals busy, and a frame with a wrong CRC-7 are rejected *)
